@@ -8,7 +8,7 @@ From Coquelicot Require Import Coquelicot.
 From OV.base Require Import Num.
 From OV.gen Require Import Gen_Math Gen_TensorMathFun Gen_TensorMathAD.
 From OV.model Require Import M_C10.
-From OV.proofs Require Import L_C10 L_C10_DK.
+From OV.proofs Require Import L_C10 L_C10_DK L_C10_End L_C10_DKV.
 Local Open Scope R_scope.
 
 (* (1) custom_root's tangent solve `lambda g, y: y / g(1.0)` inverts every linear map t |-> a t, a <> 0; together with the scalar
@@ -21,6 +21,30 @@ Theorem C10_scalar_ift : forall (F : R -> R -> R) (x : R -> R) (p0 a b dx : R),
   is_derive x p0 dx -> a <> 0 ->
   dx = (- b) / a /\ (fun t : R => a * t) ((- b) / (fun t : R => a * t) 1) = - b.
 Proof. exact scalar_ift_with_tangent_solve. Qed.
+
+(* (1') the derivative theorem has NO hypothesis that the root is interior to the bracket find_root is given (the bracket and the initial
+   guess only steer rtsafe_; they do not occur in C10_scalar_ift).  Stated explicitly for a root ON AN END of the bracket -- rate-independent
+   perfect plasticity, where the root of the consistency residual is the upper end ub = eqpsOld + (trialMises - Y)/(3 mu) and rtsafe_ returns
+   it without iterating: the derivative of the root is still -b/a; it is not zero when the residual depends on the parameter; and it equals
+   the derivative of the end-point expression whenever the root stays on that end for nearby parameters.  (The only hypothesis that can fail
+   at an end is differentiability of the residual there: the power-law rate term has an infinite slope at the LOWER end eqps = eqpsOld,
+   where an actively yielding step never has its root.) *)
+Theorem C10_scalar_ift_at_bracket_end : forall (F : R -> R -> R) (x lb ub : R -> R) (p0 a b dx : R),
+  locally p0 (fun p => F (x p) p = 0) ->
+  filterdiff (fun xp : R * R => F (fst xp) (snd xp)) (locally (x p0, p0)) (fun h => a * fst h + b * snd h) ->
+  is_derive x p0 dx -> a <> 0 ->
+  (x p0 = lb p0 \/ x p0 = ub p0) ->
+  dx = (- b) / a
+  /\ (b <> 0 -> dx <> 0)
+  /\ (forall (e : R -> R) (de : R), (e = lb \/ e = ub) -> locally p0 (fun p => x p = e p) -> is_derive e p0 de -> de = (- b) / a).
+Proof. exact scalar_ift_at_bracket_end. Qed.
+Example C10_bracket_end_nonvacuous :
+  exists (F : R -> R -> R) (x lb ub : R -> R) (p0 a b dx : R),
+    locally p0 (fun p => F (x p) p = 0)
+    /\ filterdiff (fun xp : R * R => F (fst xp) (snd xp)) (locally (x p0, p0)) (fun h => a * fst h + b * snd h)
+    /\ is_derive x p0 dx /\ a <> 0 /\ x p0 = ub p0 /\ lb p0 < ub p0 /\ b <> 0
+    /\ locally p0 (fun p => x p = ub p) /\ is_derive ub p0 dx.
+Proof. exact bracket_end_nonvacuous. Qed.
 
 (* (2) envelope theorem: the energy W(x) = phi(x, y(x)) has derivative d_x phi when the internal variable is stationary for phi
    (yielding / relaxing: b = 0) or frozen (elastic: y' = 0) -- on either side of the yield switch *)
@@ -84,6 +108,34 @@ Proof. exact daleckii_krein_monomial. Qed.
 Theorem C10_divided_difference_of_monomial : forall n x y,
   (x <> y -> dd n x y = (x ^ n - y ^ n) / (x - y)) /\ dd n x x = INR n * x ^ (n - 1) /\ dd n x y = dd n y x.
 Proof. intros n x y. exact (conj (dd_quotient n x y) (conj (dd_confluent n x) (dd_sym n x y))). Qed.
+(* Daleckii-Krein for NON-DIAGONAL arguments under the eigh contract: A = V diag(lam) V^T on the 3x3 block (eq3 A (cj V (Dg lam))) with V
+   orthogonal (orth V: V^T V = V V^T = I).  The helper, for ANY V, is the conjugation V (h o (V^T sym(E) V)) V^T of the Hadamard product
+   (helper_conjugation: pure algebra); for monomials and for polynomials p = sum_m c_m x^m (coefficient list c, any length) it is the derivative
+   at t = 0 of the matrix polynomial of A + t sym(E), entry by entry, whatever kernel `rel` is used as long as it equals the divided difference
+   of p off the diagonal (coinciding eigenvalues go through the x2 == x1 guard to p').  The primal V diag(p(lam)) V^T -- what
+   symmetric_matrix_function computes from the same eigen-pair -- is that matrix polynomial of A (C10_matrix_polynomial_spectral). *)
+Theorem C10_helper_conjugation : forall (df : R -> R) rel lam (V E : Rm) i j,
+  @jvp_helper R NumR df rel lam V E i j = cj V (fun k l => @h_matrix R NumR df rel lam k l * cj (tr V) (symd E) k l) i j.
+Proof. exact helper_conj. Qed.
+Theorem C10_daleckii_krein_monomial_eigh : forall n rel lam (V A E : Rm) i j, (i < 3)%nat -> (j < 3)%nat ->
+  orth V -> eq3 A (cj V (Dg lam)) ->
+  (forall a b, a <> b -> rel a b = (a ^ n - b ^ n) / (a - b)) ->
+  is_derive (fun t => mpow (line A (symd E) t) n i j) 0 (@jvp_helper R NumR (fun x => INR n * x ^ (n - 1)) rel lam V E i j).
+Proof. exact daleckii_krein_monomial_eigh. Qed.
+Theorem C10_daleckii_krein_polynomial_eigh : forall c rel lam (V A E : Rm) i j, (i < 3)%nat -> (j < 3)%nat ->
+  orth V -> eq3 A (cj V (Dg lam)) ->
+  (forall a b, a <> b -> rel a b = (peval 0 c a - peval 0 c b) / (a - b)) ->
+  is_derive (fun t => mpoly 0 c (line A (symd E) t) i j) 0 (@jvp_helper R NumR (pderiv 0 c) rel lam V E i j).
+Proof. exact daleckii_krein_polynomial_eigh. Qed.
+Theorem C10_matrix_polynomial_spectral : forall V lam A c, orth V -> eq3 A (cj V (Dg lam)) ->
+  forall k, eq3 (mpoly k c A) (cj V (Dg (fun a => peval k c (lam a)))).
+Proof. exact mpoly_cj_diag. Qed.
+Example C10_dkv_nonvacuous :
+  orth Vrot /\ eq3 (cj Vrot (Dg (fun k => INR k + 1))) (cj Vrot (Dg (fun k => INR k + 1)))
+  /\ cj Vrot (Dg (fun k => INR k + 1)) 0%nat 1%nat = - (12 / 25)
+  /\ peval 0 (1 :: 0 :: 2 :: nil) 3 = 19 /\ pderiv 0 (1 :: 0 :: 2 :: nil) 3 = 12
+  /\ pdd 0 (1 :: 0 :: 2 :: nil) 3 5 = (peval 0 (1 :: 0 :: 2 :: nil) 3 - peval 0 (1 :: 0 :: 2 :: nil) 5) / (3 - 5).
+Proof. exact dkv_nonvacuous. Qed.
 (* NOT PROVED: C10_daleckii_krein for general (non-polynomial) f and non-diagonal A (needs the spectral calculus / orthogonal
    change of basis V, where the helper's V (h o V^T E V) V^T form is only tied by correspondence); correctness of JAX's own
    differentiation of the remaining primitives (compared with finite differences on every run). *)
@@ -102,4 +154,4 @@ Print Assumptions C10_envelope.
 Print Assumptions C10_safe_sqrt_rule.
 Print Assumptions C10_relative_log_difference_accuracy.
 Print Assumptions C10_pow_relative_difference.
-Print Assumptions C10_daleckii_krein_monomial.
+Print Assumptions C10_daleckii_krein_polynomial_eigh.
